@@ -33,4 +33,88 @@ CHECKS = {
         text="For all integer time/skew/window/period/last_counter and any token function, match() is proved to search exactly the stated counter range, return the earliest matching counter later than the last used one, raise UsedTokenError/InvalidTokenError/MalformedTokenError exactly in the stated cases and fill TotpMatch correctly; accepted counters strictly increase when fed back.",
         note="trusted: pyvc, z3 (quantifier instantiation for the 'no earlier match' invariant), consteq == equality; induction over the history argued from the proved two-call step",
     ),
+    "C01": dict(
+        category="other",
+        technique='contracts checked on the real hash/verify over a stated finite grid (bounded stand-in); proof part pending',
+        text="Every registered hasher (+ prefix wrappers, disabled hashers, libpass hashers) is run over a grid of passwords x settings x context keywords: ASCII result, identify, verify True for text and bytes, False for >= 20 near misses outside the tabulated equivalences. bounded stand-in: the property's contracts are evaluated on the real functions over the finite domains stated in the evidence (coverage.bounded); labelled bounded, never counted as proved",
+        note='trusted: digest primitives, equivalence table transcribed from the format documentation; collision resistance for the negative direction',
+    ),
+    "C02": dict(
+        category="other",
+        technique='comparison with independent reference implementations written from the published specifications, crypt(3), Django, bcrypt, hashlib.scrypt (bounded stand-in)',
+        text='Both directions (passlib output == reference output; reference/crypt(3)/Django strings verify under passlib) for ~85 formats over the length/salt/cost grid of the property statement. Foreign code (libcrypt, OpenSSL, bcrypt) cannot be put under contract, so this property is decided by the bounded comparison.',
+        note='trusted: the references in /verif/specs (self-tested against RFC vectors / crypt(3)), hashlib, legacycrypt, Django, bcrypt',
+    ),
+    "C03": dict(
+        category="other",
+        technique='every ordered pair of loadable backends compared on enumerated inputs; switching sequences (bounded stand-in)',
+        text='Each advertised backend the host demonstrably supports must be reported, selectable and agree with every other backend and with an independent oracle; backend switching sequences must not disturb other hashers. Equality with libcrypt/OpenSSL/bcrypt-C is foreign code, hence bounded.',
+        note='trusted: host probes (crypt(3) test vectors), independent oracles',
+    ),
+    "C04": dict(
+        category="other",
+        technique='contracts on rounds-policy arithmetic, verify_and_update, identify_record, libpass CryptContext discharged by z3 (pyvc) + generated configurations vs a policy oracle',
+        text="Rounds clipping, variation range, fresh-cost-never-stale, needs_update arithmetic, verify_and_update's outcome shape, first-claimant identification (<= 3 schemes) and the libpass context are verified from the real source for all integers / None combinations; refuted obligations correspond to recorded known findings (bsdi_crypt odd rounds, duplicate libpass scheme), so the run is reported at level 'other'. Context-level option inheritance is compared with a policy oracle on ~3000 generated configurations.",
+        note='trusted: pyvc, z3, rng.randint range contract, float vary_rounds bounded only',
+    ),
+    "C05": dict(
+        category="other",
+        technique='contracts checked on the real hashers over boundary-length multi-byte passwords, 4095/4096/4097 and NUL positions (bounded stand-in); proof part pending',
+        text="Truncating hashers x truncate_error on/off (hasher and context level) x byte lengths limit-1/limit/limit+1 built from 1-4 byte characters x str/bytes; every hasher at 4095/4096/4097; NUL at every position <= 16 for crypt-compatible formats. bounded stand-in: the property's contracts are evaluated on the real functions over the finite domains stated in the evidence (coverage.bounded); labelled bounded, never counted as proved",
+        note='trusted: digest primitives; PASSLIB_MAX_PASSWORD_SIZE unset (4096)',
+    ),
+    "C07": dict(
+        category="other",
+        technique='parse/render round trips over generated hashes of every hasher, libpass inspect/PHC records (bounded stand-in); proof part pending',
+        text="from_string/to_string fixpoints, parsed settings == settings used, canonical forms (hex case, padding bits), config-only forms, prefix wrappers, libpass inspect_* and PHC records over generated field values. bounded stand-in: the property's contracts are evaluated on the real functions over the finite domains stated in the evidence (coverage.bounded); labelled bounded, never counted as proved",
+        note='trusted: regex engine, stdlib codecs',
+    ),
+    "C08": dict(
+        category="other",
+        technique='single-edit neighbours of valid hashes and arbitrary strings through identify/verify/needs_update of every hasher and CryptContext (bounded stand-in); proof part pending',
+        text="~100k mutants (substitution from a hostile alphabet, deletion, insertion, truncation, separators, numbers) x str/bytes: identify never raises, verify/needs_update answer or raise ValueError/TypeError, an altered digest or setting never verifies unless it decodes to the same bits. bounded stand-in: the property's contracts are evaluated on the real functions over the finite domains stated in the evidence (coverage.bounded); labelled bounded, never counted as proved",
+        note='trusted: second-preimage resistance of the digests',
+    ),
+    "C09": dict(
+        category="other",
+        technique='contracts on norm_integer and HasRounds.using (all None/int/string combinations, frame: no write outside the fresh subclass) discharged by z3/cvc5 (pyvc) + option grids on all hashers',
+        text="norm_integer (strict refusal / relaxed clamping) and HasRounds.using are verified from the real source: aliases exclusive, hard limits respected, policy invariant established, parent class never written. The inductive form (derive from derived) is refuted in the witness class of the recorded known finding, so the run is reported at level 'other'. All other using() overrides are exercised by the bounded stand-in.",
+        note='trusted: pyvc, z3/cvc5, MinimalHandler.using returns a fresh subclass, int(str) model',
+    ),
+    "C10": dict(
+        category="other",
+        technique='export/import equality and failed-change invariance on generated configurations, raising hasher at k-th call (bounded stand-in); proof part pending',
+        text="to_dict/to_string/copy/update round trips compared on exported configuration and decisions; 35 kinds of invalid change at every position and a custom hasher raising at call k: state identical afterwards. bounded stand-in: the property's contracts are evaluated on the real functions over the finite domains stated in the evidence (coverage.bounded); labelled bounded, never counted as proved",
+        note='trusted: configparser',
+    ),
+    "C15": dict(
+        category="other",
+        technique='round trips through uri/json/dict over hostile labels and class defaults; corrupted sources (bounded stand-in); proof part pending',
+        text="8 TOTP classes x keys x algorithms x digits x periods x hostile labels/issuers x three formats x three load paths; corrupted sources must raise ValueError. Wallet AES path skipped (cryptography not installed). bounded stand-in: the property's contracts are evaluated on the real functions over the finite domains stated in the evidence (coverage.bounded); labelled bounded, never counted as proved",
+        note='trusted: urllib quoting, json',
+    ),
+    "C16": dict(
+        category="other",
+        technique='all operation sequences up to a bound over small alphabets vs an independent reader (bounded stand-in); proof part pending',
+        text="Both file classes: every operation sequence of length <= 2-3 (quick) over 19-35 operations from 5 initial files, sampled longer sequences, autosave, encodings, str/bytes; after each step an independent reader must see exactly the model's users once each. bounded stand-in: the property's contracts are evaluated on the real functions over the finite domains stated in the evidence (coverage.bounded); labelled bounded, never counted as proved",
+        note='trusted: the 10-line independent reader in /verif/specs/ht_reader.py',
+    ),
+    "C17": dict(
+        category="other",
+        technique='every exported context x every scheme x generated hashes; registry names (bounded stand-in); proof part pending',
+        text="34 shipped contexts: a hash of each scheme (all idents/variants) is attributed to that scheme and verifies; all 76 registry names load a hasher of that name and passlib.hash.<name> is the same object. bounded stand-in: the property's contracts are evaluated on the real functions over the finite domains stated in the evidence (coverage.bounded); labelled bounded, never counted as proved",
+        note='trusted: host crypt() determines the host-dependent lists',
+    ),
+    "C18": dict(
+        category="proof",
+        technique='contracts on unix_disabled / django_disabled (identify, verify, hash, disable, enable) and CryptContext verify/enable/disable/is_enabled discharged by cvc5/z3 string theory (pyvc) + lemma enable(disable(h)) == h',
+        text='For arbitrary strings: a disabled string is identified, never verifies for any password, disabling twice stays disabled, enable returns exactly the embedded original and refuses a bare marker; CryptContext.verify(hash=None) is False after exactly one dummy verification; context enable/disable/is_enabled delegate as stated. Contexts x originals x sequences are additionally swept by the bounded stand-in.',
+        note='trusted: pyvc, cvc5/z3, MAX_PASSWORD_SIZE == 4096, ASCII model of bytes hashes',
+    ),
+    "C20": dict(
+        category="other",
+        technique='cross verification passlib <-> libpass on grids, identify-own-format, needs_update, libpass context (bounded stand-in; libpass context contracts are proved under C04)',
+        text="Six formats x passwords x non-empty salts x costs: each direction of verification, equal digests, independent oracle, identify exactly own format, needs_update, scheme lists of length 1..3. bounded stand-in: the property's contracts are evaluated on the real functions over the finite domains stated in the evidence (coverage.bounded); labelled bounded, never counted as proved",
+        note='trusted: bcrypt, hashlib, base64',
+    ),
 }
